@@ -135,8 +135,12 @@ func (ex *Exec) Report(cfg *PropConfig, tier string, seed int, reps []*FuncRepor
 	for _, v := range vacuous {
 		lines = append(lines, "VACUOUS: "+v+" (precondition or path condition unsatisfiable)")
 	}
+	seenErr := map[string]bool{}
 	for _, e := range ex.errs {
-		lines = append(lines, "ENGINE-ERROR: "+e)
+		if !seenErr[e] {
+			seenErr[e] = true
+			lines = append(lines, "ENGINE-ERROR: "+e)
+		}
 	}
 	// stale contracts: a contract whose function no longer exists
 	for _, l := range lines {
